@@ -174,3 +174,14 @@ MUTANTS += [
 MUTANTS += [
     dict(property='C06', name='_getSolution hands the model the parameter holder before binding theta', file=BLF, old="        if theta is not None:\n            self._setParam(theta)\n\n        self._ode.parameters = self._theta\n        # TODO: is this the correct approach", new="        self._ode.parameters = self._theta\n        if theta is not None:\n            self._setParam(theta)\n\n        # TODO: is this the correct approach"),
 ]
+ABCF = 'pygom/approximate_bayesian_computation/approximate_bayesian_computation.py'
+MUTANTS += [
+    dict(property='C17', name='acceptance relaxed to cost < 2*tolerance', file=ABCF, old="                cost = self.obj.cost()\n                if cost < tolerance:", new="                cost = self.obj.cost()\n                if cost < 2*tolerance:"),
+    dict(property='C17', name='prior-support test dropped', file=ABCF, old="            if w1:\n                # converting from log-scale and ensuring", new="            if True:\n                # converting from log-scale and ensuring"),
+    dict(property='C17', name='log back-transform after the re-ordering (seeded change)', file=ABCF, old="                model_params = self._log_parameters(trial_params.copy())\n                par_update(model_params[self.par_order])", new="                model_params = self._log_parameters(trial_params[self.par_order])\n                par_update(model_params)"),
+    dict(property='C17', name='particle back-transformed in place (stored particle is not the one the prior and kernel saw)', file=ABCF, old="                model_params = self._log_parameters(trial_params.copy())\n                par_update(model_params[self.par_order])\n                if hasattr(self,\"con_state\"): \n                    self.obj._x0[self.con_state] = self.pop_size - self.obj._x0[self.con_state_indices].sum() \n                \n                cost", new="                model_params = self._log_parameters(trial_params)\n                par_update(model_params[self.par_order])\n                if hasattr(self,\"con_state\"): \n                    self.obj._x0[self.con_state] = self.pop_size - self.obj._x0[self.con_state_indices].sum() \n                \n                cost"),
+    dict(property='C17', name='quantile schedule inflated by 1.5', file=ABCF, old="            if self.q is not None:\n                return np.quantile(self.dist,self.q)\n            else:\n                return self.tol[g]", new="            if self.q is not None:\n                return np.quantile(self.dist,self.q)*1.5\n            else:\n                return self.tol[g]"),
+    dict(property='C17', name='continued run accepts a larger tolerance', file=ABCF, old='            assert tol <= self.final_tol, "The initial tolerance is greater', new='            assert tol >= 0 or tol <= self.final_tol, "The initial tolerance is greater'),
+    dict(property='C17', name='distances stored for the next particle (off by one)', file=ABCF, old="                 self.res[i], \n                 self.dist[i]) = self._perform_generation(generation=g,", new="                 self.res[i], \n                 self.dist[(i + 1) % self.N]) = self._perform_generation(generation=g,"),
+    dict(property='C17', name='every generation uses the first tolerance of the list', file=ABCF, old="        for g in range(rerun,self.G+rerun):\n            tolerance = self.get_tolerance(g-rerun)", new="        for g in range(rerun,self.G+rerun):\n            tolerance = self.get_tolerance(0)"),
+]
